@@ -9,6 +9,7 @@
 -/
 import ALV.Gen.C13Src
 import ALV.Lemmas.C13Thub
+import ALV.Model.C13Call
 namespace ALV.C13.Src
 open ALV ALV.C13
 
@@ -54,5 +55,38 @@ theorem progOf_decide :
       .combFb 0, .combFb 1, .combFb 3, .combTau 0, .combTau 2, .combFf 0, .combFf 3, .klapuri].all
         fun k => decide (Gen.C13.progOf k = ALV.C13.progOf k)) = true := by
   decide
+
+/-! ### the scalar functions of lazy_auditory.py (erb.gm90 / erb.mg83 / gammatone_erb_constants)
+
+Equations between FUNCTIONS, generic over the number class: a changed constant (`ofRat p q` of another literal), operator,
+operand order, comparison (`freq < 7`), unit (`Hz = 1`), default strategy (the one registered first) or a statement moved
+across the `Hz is None` branch makes the two sides different terms. -/
+section scalar
+variable {α : Type} [TrigField α]
+
+/-- `erb.gm90` after the `Hz is None` branch is the model's formula -/
+theorem erb_gm90 : (Gen.C13.erb_gm90_tail : α → α → α) = erbGm90 := rfl
+/-- `erb.mg83` after the `Hz is None` branch is the model's formula -/
+theorem erb_mg83 : (Gen.C13.erb_mg83_tail : α → α → α) = erbMg83 := rfl
+
+/-- the call `erb[st](freq, Hz=None)`: the strategy table, the default, the refusal `freq < 7`, the unit `Hz = 1` -/
+theorem erb_call [LtTest α] :
+    (Gen.C13.erb_call : Option ErbStrategy → α → Option α → Except Unit α) = erbCall := by
+  funext st f hz
+  rcases st with _ | _ | _ <;> cases hz <;> rfl
+
+/-- `gammatone_erb_constants(n)`: `tnt`, the factorial quotient and the 3 dB constant -/
+theorem gammatone_erb_constants : (Gen.C13.gammatone_erb_constants : Nat → α × α) = gammatoneErbConstants := rfl
+
+/-- `gammatone.sampled`: `A`, the two coefficient lists, the `.diff(n=eta-1, mul_after=-z)` loop (`diffNum`: `eta - 1`
+steps of `diffStep`, the body of `ZFilter.diff`), the two normalisations by the measured gain, the cascade -/
+theorem gammatone_sampled [ZeroTest α] :
+    (Gen.C13.gammatone_sampled : α → α → α → Nat → List (Coefs α)) = gammatoneSampled := rfl
+
+/-- the defaults `phase=0, eta=4` of the `def` line -/
+theorem gammatone_sampled_call [ZeroTest α] :
+    (Gen.C13.gammatone_sampled_call : α → α → Option α → Option Nat → List (Coefs α)) = gammatoneSampledCall := rfl
+
+end scalar
 
 end ALV.C13.Src
